@@ -1,0 +1,19 @@
+//go:build verif
+
+package link_solicit
+
+// VerifMountedState returns the guarded fields of a SolicitMountedStream value.
+func VerifMountedState(v SolicitMountedStream) (hasErr, accepted, ok bool) {
+	s, ok := v.(*solicitMountedStream)
+	if !ok {
+		return false, false, false
+	}
+	s.mu.Lock()
+	defer s.mu.Unlock()
+	return s.err != nil, s.accepted, true
+}
+
+// VerifClose calls Close on a SolicitMountedStream value.
+func VerifClose(v SolicitMountedStream) bool {
+	return v.(*solicitMountedStream).Close()
+}
